@@ -8,6 +8,7 @@ constant-free stacks (also with constants turned into extra variables) -- equal 
 arithmetic wherever the original is defined (power-free) / wherever both are defined (with powers).
 """
 import math
+import warnings
 import signal
 
 import mpmath
@@ -113,6 +114,11 @@ def gen_cases(ctx, n):
         D = rng.choice([2, 3])
         st = G.tree_to_stack(G.twin_tree(rng, D), share=rng.random() < 0.7)
         cases.append(("twins", st, D))
+    # the same constants in several places (constant folding counts occurrences)
+    for k in range(max(n // 3, 150)):
+        D = rng.choice([1, 2])
+        st = G.tree_to_stack(G.shared_const_tree(rng, D), share=rng.random() < 0.7)
+        cases.append(("shared constants", st, D))
     return cases
 
 
@@ -493,6 +499,58 @@ def cas_folding_oracle(ctx, rep, st, D, case):
         rep.count("cas_folding", "witness found (affine case)")
 
 
+def guided_witness_search(ctx, rep, st, code_out, model_out, budget=[12]):
+    """failing-input search guided by a broken correspondence: the code's simplified stack differs from the Lean port's (whose
+    output is proved to preserve the expressible functions on the proved fragment).  For generic values of the original constants,
+    look for values of the constants of the CODE's output that reproduce the original on sample points (multi-start least squares).
+    It only runs when the correspondence is already broken, so it cannot raise an alarm on the unchanged tree."""
+    if budget[0] <= 0:
+        return
+    budget[0] -= 1
+    try:
+        from scipy.optimize import least_squares
+        from bingo.symbolic_regression.agraph.evaluation_backend import evaluation_backend as eb_
+    except Exception:
+        return
+    rng = ctx.rng
+    st0, L0 = G.renumber(st)
+    L1 = sum(1 for r in code_out if r[0] == G.CONSTANT)
+    D = max([r[1] + 1 for r in st0 if r[0] == G.VARIABLE] + [1])
+    a0, a1 = np.array(st0, dtype=int).reshape(-1, 3), np.array(code_out, dtype=int).reshape(-1, 3)
+    for attempt in range(3):
+        c0 = np.array([G.nice_value(rng) * 1.0371 for _ in range(L0)])
+        X = np.array([[rng.uniform(0.4, 2.2) for _ in range(D)] for _ in range(3 * max(L1, 1) + 10)])
+        with np.errstate(all="ignore"), warnings.catch_warnings():
+            warnings.simplefilter("ignore")
+            target = eb_.evaluate(a0, X, c0).ravel()
+            if not np.isfinite(target).all():
+                continue
+            scale = max(1.0, float(np.max(np.abs(target))))
+            if L1 == 0:
+                best = float(np.max(np.abs(eb_.evaluate(a1, X, np.zeros(0)).ravel() - target)))
+            else:
+                def resid(c):
+                    v = eb_.evaluate(a1, X, c).ravel() - target
+                    return np.where(np.isfinite(v), v, 1e6)
+                best = float("inf")
+                starts = [np.array([G.nice_value(rng) for _ in range(L1)]) for _ in range(40)]
+                starts += [np.array(list(c0[:L1]) + [1.0] * max(0, L1 - L0)), -np.array(list(c0[:L1]) + [1.0] * max(0, L1 - L0))]
+                for s0 in starts:
+                    try:
+                        r = least_squares(resid, s0, method="lm" if len(X) >= L1 else "trf", max_nfev=400)
+                    except Exception:
+                        continue
+                    best = min(best, float(np.max(np.abs(r.fun))))
+                    if best <= 1e-7 * scale:
+                        break
+        if best > 1e-5 * scale:
+            rep.violate(f"CAS: the simplified stack differs from the Lean port's and no values of its {L1} constants reproduce the original "
+                        f"(generic constants {c0.tolist()}) on {len(X)} points: best maximal deviation {best:.3g} over 42 least-squares starts "
+                        "(numerical search, started because the correspondence with the proved port is broken)", "C03:cas-value",
+                        {"stack": st, "code_output": code_out, "port_output": model_out, "original_constants": c0.tolist(), "points": X.tolist()})
+            return
+
+
 def cas_correspondence(ctx, rep, cases):
     """exact comparison with the Lean port of the CAS (only if the driver knows the op)"""
     if not ctx.driver_ok:
@@ -523,6 +581,7 @@ def cas_correspondence(ctx, rep, cases):
         want, _ = G.renumber(out)
         if got != want:
             rep.disagree("CAS output differs between the Lean port and simplify_stack", {"stack": st, "model": got, "code": want})
+            guided_witness_search(ctx, rep, st, want, got)
         if "ovf=1" in o:
             rep.count("cas_port_overflow_flag")
 
